@@ -731,6 +731,9 @@ type Type struct {
 	requireInstance bool
 	unionTypes      []*Type
 	extensions      []*Extension
+
+	// typedef this type was derived from, set when compiled
+	typedef *Typedef
 }
 
 func newType(ident string) *Type {
